@@ -324,6 +324,20 @@ theorem sequential_bidx_as_coded_wrong :
 example : InRangeZ [(2, 3), (3, 2)] [[(0,0),(1,2)], [(2,1),(0,0)]] := by
   simp [InRangeZ]
 
+/-- **level reordering** (`MLMatrix.reorder(axes)` = `structure.reorder(axes)` + `np.transpose(data, axes)`): the
+entry with data index `μ` is found at data index `(μ[axes[0]], μ[axes[1]], …)` of the reordered matrix, at the
+position whose per-level (row, column) digits are those of the original entry permuted by `axes` -- i.e. the
+reordered matrix is the Kronecker-structured matrix of the permuted level factors, for any `axes`. -/
+theorem reorder_entry (S : MLStructure) (axes μ : List Nat) :
+    (S.reorder axes).entryAt (axes.map (fun j => μ.getD j 0)) =
+      (toSeq (axes.map (fun j => ((S.bidx.getD j []).getD (μ.getD j 0) (0, 0)).1)) (axes.map (fun j => (S.bs.getD j (0, 0)).1)),
+       toSeq (axes.map (fun j => ((S.bidx.getD j []).getD (μ.getD j 0) (0, 0)).2)) (axes.map (fun j => (S.bs.getD j (0, 0)).2))) :=
+  reorder_entryAt S axes μ
+
+example : ({ bs := [(2,2),(3,3)], bidx := [[(1,0)],[(0,2),(2,1)]] } : MLStructure).entryAt [0, 1] = (5, 1) ∧
+    (({ bs := [(2,2),(3,3)], bidx := [[(1,0)],[(0,2),(2,1)]] } : MLStructure).reorder [1, 0]).entryAt [1, 0] = (5, 2) := by
+  decide
+
 /-! ## the matrix-vector product -/
 
 /-- **`MLMatrix._matvec` as coded = the denoted sparse matrix applied to `x`**: on every route -- the
